@@ -408,6 +408,24 @@ def marker_conditions(prog, rep):
     for bi, t in rd.calls():
         if (t.get("callee") or "").endswith("::warn") and "NonZeroTickmarkerPadding" in show(strip_sites(ir.call_expr(bi, t))):
             want_relations(rep, rule, "read | padding warning", holds_at(ir, bi), [("CHUNKTICKMASK_TICK_V5", "Ne", 0)], rd.loc(t.get("ln")), "warn(NonZeroTickmarkerPadding)")
+    # Reader::read_chunk: a data chunk is skipped (RawChunk::Unknown, payload not read) exactly for DataKind::Unknown
+    rc = prog.one(D + "reader::Reader::read_chunk")
+    rir = IR(rc)
+    dk = prog.adt(D + "format::DataKind")
+    unk = [int(v["discr"]) for v in dk["variants"] if v["name"] == "Unknown"]
+    ub = "bytes:" + unk[0].to_bytes(dk["size"], "little").hex() if unk else "bytes:"
+    for bi, t in rc.calls():
+        if (t.get("callee") or "").endswith("Huffman::decompress"):
+            want_relations(rep, rule, "read_chunk | payload read for every known kind", holds_at(rir, bi), [("ChunkHeader::read", "Ne", ub)], rc.loc(t.get("ln")), "decompress")
+    early = 0
+    for bi in sorted(rc.live):
+        for si, st in enumerate(rc.blocks[bi]["st"]):
+            if st["k"] == "assign" and st["r"]["k"] == "agg" and st["r"].get("variant") == "Unknown" and (st["r"].get("adt") or "").endswith("RawChunk"):
+                rels = holds_at(rir, bi)
+                if not any("decompress" in show(strip_sites(r[1] if r[0] == "bool" else r[0])) for r in rels):
+                    early += 1
+                    want_relations(rep, rule, "read_chunk | skipped exactly for DataKind::Unknown", rels, [("ChunkHeader::read", "Eq", ub)], rc.loc(st.get("ln")), "early RawChunk::Unknown")
+    rep.floor(rule, early, 1, "early return of RawChunk::Unknown in read_chunk")
     wr = prog.one(D + "format::ChunkHeader::write")
     wir = IR(wr)
     asserts = [r for r, ln in asserted_relations(wr, wir)]
